@@ -23,13 +23,13 @@ ID = 'C19'
 NAMESPACE = 'VL.C19'
 LEAN_MODULES = ['VotelibProofs.Props.C19']
 GEN_MODULES = []
-REQUIRED = ['codec_roundtrip', 'to_from_dict_roundtrip', 'codec_rejects', 'codec_accepts', 'codec_save_ok_iff',
+REQUIRED = ['codec_roundtrip', 'codec_reserialize_stable', 'to_from_dict_roundtrip', 'codec_rejects', 'codec_accepts', 'codec_save_ok_iff',
             'representable_serializable', 'codec_save_or_faithful_partial', 'codec_set_altered_witness',
             'codec_reserved_key_witness', 'codec_reserved_callable_witness', 'codec_save_or_faithful_witness',
-            'blt_roundtrip', 'blt_error_kinds', 'blt_parse_total_partial', 'blt_parse_total_witness_invalid_operation',
+            'blt_roundtrip', 'blt_error_kinds', 'blt_parse_total_partial', 'blt_parse_total_inrange', 'blt_parse_total_witness_invalid_operation',
             'blt_parse_total_witness_value_error', 'blt_parse_total_witness_index_error', 'blt_zero_index_alias_witness',
             'blt_parse_total_witness', 'blt_fraction_weight_witness',
-            'Stv.stv_roundtrip', 'Stv.stv_error_kinds', 'Stv.stv_nick_end_witness', 'Stv.stv_empty_ballot_witness',
+            'Stv.stv_nicks_distinct', 'Stv.stv_roundtrip', 'Stv.stv_error_kinds', 'Stv.stv_nick_end_witness', 'Stv.stv_empty_ballot_witness',
             'Stv.stv_roundtrip_unconditional_witness']
 REQUIRED_COUNTERS = ['codec_frac', 'codec_dec', 'codec_tuple', 'codec_fset', 'codec_sdict', 'codec_gdict', 'codec_obj', 'codec_callable',
                      'codec_depth_4', 'unrepresentable', 'hazard_bare_set', 'hazard_reserved_key',
@@ -63,7 +63,7 @@ NOT_VERIFIED = ['lexing of BLT/STV text (strip, split, "#" comments, quotes, str
                 'STV: only the candidate / ballot section (nicknames, candidate lines, ballots=, unordered ballot lines, end) is modelled, at token '
                 'level; the system header (_dump_system / _create_system), the ordered format and name_to_initials (regex, str.lower) are not — '
                 'candidates come with their initials; math.log in the ordinal nickname length is modelled as the least k with 26^k >= n']
-UNPROVED = ['blt_parse_total (false of the current parser: witnesses proved; blt_parse_total_partial + blt_error_kinds hold)',
+UNPROVED = ['blt_parse_total (false of the current parser: witnesses proved; blt_parse_total_partial, blt_parse_total_inrange and blt_error_kinds hold)',
             'codec_save_or_faithful (false of the current codec: bare sets, reserved keys; witnesses proved)',
             'stv_parse_total (false of the current reader: ValueError / ZeroDivisionError / TypeError ...; Stv.stv_error_kinds holds for the section)',
             'stv_roundtrip for the system header (title, seats): oracle only']
@@ -253,16 +253,31 @@ def _impl_class(case):
     if det and not case.get('bad'):
         o0 = _g(lambda: KL.outcomes(obj, seed), 30)
         out['n_ok_outcomes'] = 0 if _is_err(o0) else sum(1 for o in o0 if not _is_err(o))
+
+        def differs(other):
+            """outcomes of the reloaded copy differ from the original's, reproducibly (an evaluation that depends on the
+            iteration order of id-hashed objects is not reproducible even on the original: no C19 matter)"""
+            o1 = _g(lambda: KL.outcomes(other, seed), 30)
+            if o1 == o0:
+                return None
+            for _ in range(2):
+                if _g(lambda: KL.outcomes(obj, seed), 30) != o0:
+                    out['unstable_original'] = True
+                    return None
+                if _g(lambda: KL.outcomes(other, seed), 30) == o0:
+                    out['unstable_original'] = True
+                    return None
+            return _first_diff(o0, o1)
         if out['load'] == 'ok':
-            o1 = _g(lambda: KL.outcomes(y, seed), 30)
-            out['out_eq'] = o0 == o1
-            if o0 != o1:
-                out['out_diff'] = _first_diff(o0, o1)
+            d1 = differs(y)
+            out['out_eq'] = d1 is None
+            if d1 is not None:
+                out['out_diff'] = d1
         if out.get('json') == 'ok':
-            o2 = _g(lambda: KL.outcomes(y2, seed), 30)
-            out['json_out_eq'] = o0 == o2
-            if o0 != o2:
-                out['json_out_diff'] = _first_diff(o0, o2)
+            d2 = differs(y2)
+            out['json_out_eq'] = d2 is None
+            if d2 is not None:
+                out['json_out_diff'] = d2
     return out
 
 
@@ -365,7 +380,7 @@ def _impl_blt_rt(case):
     if _is_err(text):
         return {'dump': text}
     loaded = _g(lambda: IO.doc_of_loaded(*blt.loads(text)))
-    return {'dump': 'ok', 'text': text, 'lines': IO.blt_tokenise(text.rstrip('\n') if False else text), 'loaded': loaded}
+    return {'dump': 'ok', 'text': text, 'lines': IO.blt_tokenise(text), 'loaded': loaded}
 
 
 def _haz_blt(case):
@@ -411,6 +426,8 @@ def _compare_blt_rt(case, iobs, mobs):
         lines = lines[:-1]               # dumps() ends the text with a newline: one empty last line
     if lines != mobs['lines']:
         return f"lines: impl={json.dumps(lines)[:300]} model={json.dumps(mobs['lines'])[:300]}"
+    if mobs.get('wf') and _oracle_rt(case, iobs):
+        return 'the document meets WFdoc (hypothesis of blt_roundtrip) but the implementation does not round-trip it'
     return _cmp_loaded(iobs['loaded'], mobs['loaded'])
 
 
@@ -690,6 +707,8 @@ def _compare_stv_rt(case, iobs, mobs):
         return f"header lines: impl={json.dumps(hdr)[:300]} model={json.dumps(mobs['hdr'])[:300]}"
     if _strip_trailing_blank(tk[1]) != mobs['votes']:
         return f"ballot lines: impl={json.dumps(tk[1])[:300]} model={json.dumps(mobs['votes'])[:300]}"
+    if mobs.get('wf') and [c for c, _ in _oracle_stv_rt(case, iobs) if c not in ('title_differ', 'seats_differ')]:
+        return 'the document meets wfStv (hypothesis of stv_roundtrip) but the implementation does not round-trip its section'
     return _cmp_loaded(_stv_section(iobs['loaded']), mobs['loaded'])
 
 
@@ -996,9 +1015,6 @@ def _exhaustive_codec():
                 if t == 'fset' and (not CC.hashable_p(a) or not CC.hashable_p(b)):
                     continue
                 out.append({'t': t, 'v': [a, b]})
-        for a in kids:
-            if t == 'fset' and not CC.hashable_p(a):
-                continue
         for k in ({'a': 'str', 'v': 'k'}, {'a': 'str', 'v': 'class'}, {'a': 'int', 'v': '1'}, {'t': 'tuple', 'v': []}):
             for a in kids:
                 out.append({'t': 'dict', 'k': [k], 'v': [a]})
@@ -1043,8 +1059,8 @@ LEVEL_TEXT = ('The dict codec of persist.py (serialize_value / deserialize_value
               'modelled branch by branch in Lean. Proved for all inputs: every representable value reloads to itself (codec_roundtrip, also through '
               'to_dict/from_dict), saving fails exactly on values containing something without a dict spelling (codec_rejects / codec_save_ok_iff), '
               'every well-formed BLT document reloads unchanged (blt_roundtrip: seats, names, any withdrawn subset, weights, title), the BLT parser '
-              'raises only ParseError or one of three named foreign exceptions (blt_error_kinds) and only ParseError/IndexError on lexically sane '
-              'text (blt_parse_total_partial); the candidate/ballot section of an STV file round-trips under explicit conditions on nicknames and ballots (Stv.stv_roundtrip). The full statements are false of the current tree and their negations are proved on concrete '
+              'raises only ParseError or one of three named foreign exceptions (blt_error_kinds), only ParseError/IndexError on lexically sane '
+              'text (blt_parse_total_partial) and only ParseError when candidate numbers also respect the header (blt_parse_total_inrange); the candidate/ballot section of an STV file round-trips under explicit conditions on nicknames and ballots (Stv.stv_roundtrip). The full statements are false of the current tree and their negations are proved on concrete '
               'witnesses (bare set / reserved key in the codec; InvalidOperation, ValueError, IndexError and a silent index alias in the BLT parser). '
               'All 109 classes carrying to_dict, the system header of the STV format and text lexing are covered by the differential correspondence and a direct '
               'round-trip / outcome / exception-type oracle on every run.')
